@@ -1,5 +1,6 @@
 mod common;
 mod c04;
+mod c09;
 mod c10;
 mod c11;
 mod tsx_client;
@@ -15,6 +16,7 @@ fn main() {
     let cases = common::read_cases(&args[2]);
     match args[1].as_str() {
         "c10" => c10::run(&cases),
+        "c09" => c09::run(&cases),
         "c11" => c11::run(&cases),
         "c04" => c04::run(&cases),
         "c05" => tsx_client::run(&cases, false),
